@@ -220,5 +220,61 @@ class RepeatUntil(Stream):
             yield dict(case, score=s)
 
 
+class EditedScore(Stream):
+    """the same operations on a Score object that was already used (duration read, sliced, repeated) and then edited in place with
+    score[i] = chord: they must answer for the score as it is now, i.e. like a freshly built score with the same chords"""
+    name = "edited_score"
+    checker = None
+    pair = "property oracle: used-then-edited Score object vs a fresh Score of the same chords (duration, windows, cut + re-join with the default end, repeat)"
+    quick, thorough = 300, 4000
+
+    def gen(self, rng, n):
+        for _ in range(n):
+            sc = sg.equalize(sg.rand_score(rng, max_chords=3, rel=0.0, accs=False))
+            new = sg.equalize(sg.rand_score(rng, max_chords=1, rel=0.0, accs=False))[0]
+            i = rng.randrange(len(sc))
+            edited = sc[:i] + [new] + sc[i + 1:]
+            pts, total = cut_points(rng, edited)
+            a = rng.choice([p for p in pts if p < total] or [F(0)])
+            yield {"score": sc, "i": i, "new": new, "a": a, "b": rng.choice([p for p in pts if p > a] or [a + 1]),
+                   "t": rng.choice([p for p in pts if 0 < p < total] or [total / 2]), "d": rng.choice([F(1, 2), F(3), F(7, 2), F(8), F(13)])}
+
+    def impl(self, case):
+        def observe(sc, case):
+            a, b, t, d = F(case["a"]), F(case["b"]), F(case["t"]), F(case["d"])
+            rd = lambda x: None if x is None else [sg.read_score(x), F(x.duration)]
+            out = {"dur": F(sc.duration), "window": rd(sc.get_score_between(a, b)), "tail": rd(sc.get_score_between(t)),
+                   "head": rd(sc.get_score_between(0, t))}
+            try:
+                out["repeat"] = rd(sc.repeat_until_duration(d))
+            except ZeroDivisionError:
+                out["repeat"] = "zero-length score"
+            return out
+
+        def f():
+            used = sg.mk_rscore(case["score"])
+            observe(used, case)                                   # warm every cache the object may carry
+            used[case["i"]] = sg.mk_rchord(case["new"])
+            edited = case["score"][:case["i"]] + [case["new"]] + case["score"][case["i"] + 1:]
+            return {"used": observe(used, case), "fresh": observe(sg.mk_rscore(edited), case), "want_dur": sg.total_dur(edited)}
+        return mlang.guarded(f)
+
+    def spec(self, case, r):
+        if mlang.is_exc(r):
+            return {"sig": "edited-score-raises", "msg": str(r)}
+        if r["used"]["dur"] != r["want_dur"]:
+            return {"sig": "edited-score-stale-duration", "msg": f"duration {r['used']['dur']} after score[{case['i']}] = chord, chords sum to {r['want_dur']}"}
+        for k in ("window", "tail", "head", "repeat"):
+            if r["used"][k] != r["fresh"][k]:
+                return {"sig": f"edited-score-stale:{k}", "msg": f"{k} of the edited object differs from the same call on a fresh score"}
+        return None
+
+    def nontrivial(self, case, r):
+        return sg.total_dur([case["new"]]) != sg.total_dur([case["score"][case["i"]]])
+
+    def shrink(self, case):
+        return []
+
+
 def streams():
-    return [MelodyBetween(), ScoreBetween(), RepeatUntil()]
+    return [MelodyBetween(), ScoreBetween(), RepeatUntil(), EditedScore()]
